@@ -52,7 +52,7 @@ VARIABLES driver, pc, cur, log, hist, trials, serialized, again
 vars == <<driver, pc, cur, log, hist, trials, serialized, again>>
 
 Init == /\ driver \in Drivers /\ pc = "idle" /\ cur = [entry |-> "user", res |-> FALSE, acc |-> FALSE]
-        /\ log = <<>> /\ hist = <<>> /\ trials = 0 /\ serialized = FALSE /\ again = FALSE
+        /\ log = <<>> /\ hist = <<>> /\ trials = 0 /\ serialized = FALSE /\ again = 0
 
 Yield(t) == /\ pc = "idle" /\ trials < MaxTrials
             /\ t.entry \in EntriesOf(driver)
@@ -99,8 +99,8 @@ SerializeSim == /\ pc = "idle" /\ ~serialized /\ trials >= 1 /\ trials < MaxTria
 
 \* ... and whenever the simulation is serialized again, every user component is asked again (its dictionary may have
 \* changed with the run): nothing is remembered from an earlier serialization
-SerializeAgain == /\ pc = "idle" /\ serialized /\ trials = MaxTrials /\ ~again
-                  /\ again' = TRUE
+SerializeAgain == /\ pc = "idle" /\ serialized /\ trials = MaxTrials /\ again < 2
+                  /\ again' = again + 1
                   /\ log' = log \o SerHalf(driver, "to_dict")
                   /\ UNCHANGED <<driver, pc, cur, hist, trials, serialized>>
 
@@ -134,7 +134,7 @@ RECURSIVE ExpectedLog(_, _, _, _)
 ExpectedLog(d, b, s, i) ==
     IF i > Len(b) THEN <<>>
     ELSE TrialLog(d, b[i]) \o (IF s = 1 /\ i = 1 /\ Len(b) > 1 THEN SerLog(d) ELSE <<>>)
-         \o (IF s = 1 /\ i = Len(b) /\ Len(b) > 1 THEN SerHalf(d, "to_dict") ELSE <<>>) \o ExpectedLog(d, b, s, i + 1)
+         \o (IF s = 1 /\ i = Len(b) /\ Len(b) > 1 THEN SerHalf(d, "to_dict") \o SerHalf(d, "to_dict") ELSE <<>>) \o ExpectedLog(d, b, s, i + 1)
 ExpectedHist(b) == [i \in 1..Len(b) |-> IF ~b[i].res THEN "none" ELSE IF b[i].acc THEN "acc" ELSE "rej"]
 
 Cases == UNION {{[driver |-> d, trials |-> b, serialize_after |-> s, log |-> ExpectedLog(d, b, s, 1), hist |-> ExpectedHist(b)] : b \in {x \in Behaviours(d, MaxTrials) : Len(x) >= 1}, s \in {0, 1}} : d \in Drivers}
